@@ -70,3 +70,206 @@ pub fn cycle_cost(kind: u8, addr: u32, cfg: &BusCfg) -> u8 {
         per_access
     }
 }
+
+// ---------------------------------------------------------------- ALU reference (H8/300H programming manual)
+
+#[derive(Clone, Copy)]
+pub struct Flags {
+    pub h: bool,
+    pub n: bool,
+    pub z: bool,
+    pub v: bool,
+    pub c: bool,
+}
+
+#[inline]
+pub fn mask(bits: u32) -> u64 {
+    (1u64 << bits) - 1
+}
+
+/// a + b + cin on `bits` bits (8/16/32).  H = carry out of bit 3 / 11 / 27.
+pub fn add(bits: u32, a: u64, b: u64, cin: u64) -> (u64, Flags) {
+    let m = mask(bits);
+    let full = a + b + cin;
+    let res = full & m;
+    let hm = mask(bits - 4);
+    let sign = 1u64 << (bits - 1);
+    let f = Flags {
+        h: ((a & hm) + (b & hm) + cin) >> (bits - 4) != 0,
+        n: res & sign != 0,
+        z: res == 0,
+        v: ((a ^ res) & (b ^ res) & sign) != 0,
+        c: (full >> bits) != 0,
+    };
+    (res, f)
+}
+
+/// a - b - bin on `bits` bits.  H = borrow into bit 3 / 11 / 27, C = borrow out.
+pub fn sub(bits: u32, a: u64, b: u64, bin: u64) -> (u64, Flags) {
+    let m = mask(bits);
+    let res = a.wrapping_sub(b).wrapping_sub(bin) & m;
+    let hm = mask(bits - 4);
+    let sign = 1u64 << (bits - 1);
+    let f = Flags {
+        h: (a & hm) < (b & hm) + bin,
+        n: res & sign != 0,
+        z: res == 0,
+        v: ((a ^ b) & (a ^ res) & sign) != 0,
+        c: a < b + bin,
+    };
+    (res, f)
+}
+
+pub const C: u8 = 0x01;
+pub const V: u8 = 0x02;
+pub const Z: u8 = 0x04;
+pub const N: u8 = 0x08;
+pub const U: u8 = 0x10;
+pub const H: u8 = 0x20;
+pub const UI: u8 = 0x40;
+pub const I: u8 = 0x80;
+
+/// Replaces the CCR bits in `affected` by the corresponding flags.
+pub fn put_flags(ccr: u8, affected: u8, f: &Flags) -> u8 {
+    let mut v = 0u8;
+    if f.h { v |= H; }
+    if f.n { v |= N; }
+    if f.z { v |= Z; }
+    if f.v { v |= V; }
+    if f.c { v |= C; }
+    (ccr & !affected) | (v & affected)
+}
+
+/// N,Z from value; V cleared (MOV, logic ops).
+pub fn nz_clear_v(ccr: u8, bits: u32, val: u64) -> u8 {
+    let f = Flags { h: false, n: val & (1u64 << (bits - 1)) != 0, z: val & mask(bits) == 0, v: false, c: false };
+    put_flags(ccr, N | Z | V, &f)
+}
+
+// ---------------------------------------------------------------- register-file helpers (size-generic)
+
+/// Reads a size-`sz` (1/2/4 bytes) register by its field (4-bit B/W field, 3-bit L field).
+pub fn reg_read(er: &[u32; 8], sz: u8, f: u8) -> u64 {
+    let r = er[(f & 7) as usize];
+    match sz {
+        1 => (if f & 8 == 0 { (r >> 8) & 0xff } else { r & 0xff }) as u64,
+        2 => (if f & 8 == 0 { r & 0xffff } else { r >> 16 }) as u64,
+        _ => r as u64,
+    }
+}
+
+pub fn reg_write(er: &mut [u32; 8], sz: u8, f: u8, v: u64) {
+    let i = (f & 7) as usize;
+    match sz {
+        1 => {
+            if f & 8 == 0 {
+                er[i] = (er[i] & 0xffff00ff) | (((v & 0xff) as u32) << 8);
+            } else {
+                er[i] = (er[i] & 0xffffff00) | (v & 0xff) as u32;
+            }
+        }
+        2 => {
+            if f & 8 == 0 {
+                er[i] = (er[i] & 0xffff0000) | (v & 0xffff) as u32;
+            } else {
+                er[i] = (er[i] & 0x0000ffff) | (((v & 0xffff) as u32) << 16);
+            }
+        }
+        _ => er[i] = v as u32,
+    }
+}
+
+// ---------------------------------------------------------------- Bcc condition table
+pub fn cond(cc: u8, ccr: u8) -> bool {
+    let c = ccr & C != 0;
+    let v = ccr & V != 0;
+    let z = ccr & Z != 0;
+    let n = ccr & N != 0;
+    match cc & 15 {
+        0 => true,            // BRA (BT)
+        1 => false,           // BRN (BF)
+        2 => !(c || z),       // BHI
+        3 => c || z,          // BLS
+        4 => !c,              // BCC (BHS)
+        5 => c,               // BCS (BLO)
+        6 => !z,              // BNE
+        7 => z,               // BEQ
+        8 => !v,              // BVC
+        9 => v,               // BVS
+        10 => !n,             // BPL
+        11 => n,              // BMI
+        12 => n == v,         // BGE
+        13 => n != v,         // BLT
+        14 => !(z || (n != v)), // BGT
+        _ => z || (n != v),   // BLE
+    }
+}
+
+// ---------------------------------------------------------------- addresses
+
+pub fn sext16(d: u16) -> u32 {
+    d as i16 as i32 as u32
+}
+pub fn sext24(d: u32) -> u32 {
+    if d & 0x800000 != 0 { d | 0xff000000 } else { d & 0x00ffffff }
+}
+pub fn ea_disp16(base: u32, d: u16) -> u32 {
+    base.wrapping_add(sext16(d)) & 0xffffff
+}
+pub fn ea_disp24(base: u32, d: u32) -> u32 {
+    base.wrapping_add(sext24(d)) & 0xffffff
+}
+pub fn ea_abs8(aa: u8) -> u32 {
+    0xffff00 | aa as u32
+}
+pub fn ea_abs16(aa: u16) -> u32 {
+    sext16(aa) & 0xffffff
+}
+
+/// Areas / regions between which the cost of a bus cycle can differ (C19): two addresses of the
+/// same class always cost the same.  255 = not a 24-bit address (the cost function rejects it).
+pub fn cost_class(addr: u32) -> u8 {
+    if addr > 0xffffff {
+        255
+    } else if on_chip_ram(addr) {
+        8
+    } else if addr >= 0xfee000 && addr <= 0xfee0ff {
+        9
+    } else if addr >= 0xffff20 && addr <= 0xffffe9 {
+        10
+    } else {
+        (addr >> 21) as u8
+    }
+}
+
+// ---------------------------------------------------------------- UTF-8 (RFC 3629), up to 4 bytes
+
+/// True iff the first `len` (<= 4) bytes of `b` are well-formed UTF-8.
+pub fn valid_utf8_4(b: &[u8; 4], len: usize) -> bool {
+    let mut i = 0usize;
+    let mut ok = true;
+    let mut guard = 0;
+    while i < len && guard < 4 {
+        guard += 1;
+        let x = b[i];
+        let rest = len - i;
+        let cont = |k: usize| -> bool { i + k < len && b[i + k] & 0xc0 == 0x80 };
+        if x < 0x80 {
+            i += 1;
+        } else if x >= 0xc2 && x <= 0xdf {
+            if rest >= 2 && cont(1) { i += 2; } else { ok = false; i = len; }
+        } else if x >= 0xe0 && x <= 0xef {
+            let lo = if x == 0xe0 { 0xa0 } else { 0x80 };
+            let hi = if x == 0xed { 0x9f } else { 0xbf };
+            if rest >= 3 && b[i + 1] >= lo && b[i + 1] <= hi && cont(2) { i += 3; } else { ok = false; i = len; }
+        } else if x >= 0xf0 && x <= 0xf4 {
+            let lo = if x == 0xf0 { 0x90 } else { 0x80 };
+            let hi = if x == 0xf4 { 0x8f } else { 0xbf };
+            if rest >= 4 && b[i + 1] >= lo && b[i + 1] <= hi && cont(2) && cont(3) { i += 4; } else { ok = false; i = len; }
+        } else {
+            ok = false;
+            i = len;
+        }
+    }
+    ok
+}
